@@ -349,6 +349,22 @@ pub fn all_scenarios(opts: &Opts, st: &mut Stats) -> Vec<(History, Vec<String>)>
         s.simple("expire_bid", "exec1", 3, None, true);
         out.push(s.done());
     }
+    // S15: fee collection switched off by a migration while a fee-bearing bid is open
+    {
+        let mut s = Script::new("fee-switched-off-by-migration", opts, st);
+        s.market(&Market { bid_fee: Some(("feeb", "0.1")), ask_fee: Some(("feea", "0.1")), ..Default::default() });
+        s.bid(1, "bobby", "10", 10);
+        s.ask(2, "alice", "base", "10", 10);
+        s.mtch(2, 1, "10", 3, true);
+        s.op(Op::Migrate { msg: json!({"bid_fee_rate": "", "bid_fee_account": ""}) }, true);
+        s.mtch(2, 1, "10", 3, false); // the bid still carries a fee but there is no account to pay it to
+        s.simple("reject_bid", "exec1", 1, Some(2), true);
+        s.op(Op::Migrate { msg: json!({"bid_fee_rate": "0.1", "bid_fee_account": "carol", "ask_fee_rate": "", "ask_fee_account": ""}) }, true);
+        s.mtch(2, 1, "10", 3, true);
+        s.simple("cancel_bid", "bobby", 1, None, true);
+        s.simple("expire_ask", "exec1", 2, None, true);
+        out.push(s.done());
+    }
     // S12: KF1 - pro-rata quotient formed in 28-digit decimals, at amounts where fee x quote ~ 1e27+
     {
         let mut s = Script::new("kf1-large-amount-quotient", opts, st);
